@@ -8,6 +8,10 @@ Driver commands of the monitor properties C14 / C16 / C10.
         -> ok raised=<0|1> changed=<0|1> autocommit=<0|1> durable=<ids> trace=<kinds, ! = injected>
      the Model's run of the call under that fault plan; every write appends its
      position to a log, so `changed` = something became durable.
+  c16.run <kinds>                   -> ok observer=<0|1> unchanged=<0|1> repeat=<0|1> nowrite=<0|1> closed=<0|1>
+     the operation with these statements (every write appends to a log, the answer is the whole visible
+     database) applied twice through `Observe.run` from rest: `isObserver`, "connection state as before",
+     "both answers equal"; and the weaker criteria of C16_no_write_no_change / C10.
   c10.reload <schema>               -> ok <schema detected after stamping>   (Gen.Detect)
   c10.col <existing-schema|none> <requested-schema>
         -> ok created=<0|1> schema=<…>                                (create_or_load logic)
@@ -40,6 +44,16 @@ def txnExec (fault : Option Nat) (auto : Bool) (ks : List CmdKind) : String :=
   s!"ok raised={b01 r.raised} changed={b01 (!r.conn.committed.isEmpty)} " ++
   s!"autocommit={b01 r.conn.working.isNone} durable={durable} trace={showTrace r.trace}"
 
+def c16Run (ks : List CmdKind) : String :=
+  let op : Op (List Nat) (List Nat) := ⟨logCmds ks 0, id⟩
+  let r := run (Conn.idle ([] : List Nat)) [op, op]
+  let unchanged := r.1.committed.isEmpty && r.1.working.isNone
+  let rep := match r.2 with
+    | [some a, some b] => a == b
+    | _ => false
+  s!"ok observer={b01 (isObserver op)} unchanged={b01 unchanged} repeat={b01 rep} " ++
+  s!"nowrite={b01 (ks.all (· != .write))} closed={b01 (closedShape ks)}"
+
 open Pure.Detect in
 def monitorsTable (cmd : String) (args : List String) : Option String :=
   match cmd, args with
@@ -59,6 +73,9 @@ def monitorsTable (cmd : String) (args : List String) : Option String :=
       match parseKinds k, (if f = "none" then some none else f.toNat?.map some) with
       | some ks, some fault => txnExec fault (a == "1") ks
       | _, _ => "bad-op args")
+  | "c16.run", [k] => some (match parseKinds k with
+      | some ks => c16Run ks
+      | none => "bad-op kind")
   | "c10.reload", [s] => some (match Schema.ofName s with
       | some s => (loadCreated s).render
       | none => "bad-op schema")
